@@ -1,5 +1,7 @@
 package fpgo
 
+import "time"
+
 // vf:instrument
 
 // C14: the k-th request taken by the target returns its x to the target's YieldRef and the yielded value y_k to exactly
@@ -355,7 +357,15 @@ func vh_C14_YieldFromIOHandlers() {
 	h1, h2 := Handler.New(), Handler.New()
 	x := vfInt("x")
 	io := MonadIONewGenerics(func() int { return vfFn("IO", x) })
-	switch vfChoose("io-handlers", 5) {
+	switch vfChoose("io-handlers", 7) {
+	case 5: // an IO composed with FlatMap whose bound function returns an IO observed on a handler
+		io = MonadIOJustGenerics(x).FlatMap(func(v int) *MonadIODef[int] {
+			return MonadIONewGenerics(func() int { time.Sleep(20 * time.Millisecond); return vfFn("IO", v) }).ObserveOn(h1)
+		})
+	case 6: // ... or subscribed on one
+		io = MonadIOJustGenerics(x).FlatMap(func(v int) *MonadIODef[int] {
+			return MonadIONewGenerics(func() int { time.Sleep(20 * time.Millisecond); return vfFn("IO", v) }).SubscribeOn(h2)
+		})
 	case 1:
 		io = io.ObserveOn(h1)
 	case 2:
